@@ -8,6 +8,9 @@
 #include <ares.h>
 #include <arpa/inet.h>
 #include <dlfcn.h>
+#include <fcntl.h>
+#include <sys/select.h>
+#include <unistd.h>
 #include <netinet/in.h>
 #include <pthread.h>
 #include <stdlib.h>
@@ -186,15 +189,47 @@ static struct pending *chan_pending(ares_channel channel)
     return NULL;
 }
 
+/* A resolver that waits for an answer has a socket open towards its server.  The scripted
+ * queries present one too: a descriptor that never becomes readable (the read end of a pipe
+ * nobody writes to), so that code which sleeps on the resolver's sockets - select() with
+ * ares_timeout(), the c-ares textbook loop - really sleeps. */
+static int waiting_fd(void)
+{
+    static int fds[2] = {-1, -1};
+    if (fds[0] < 0 && pipe2(fds, O_NONBLOCK | O_CLOEXEC) < 0) return -1;
+    return fds[0];
+}
+
 int ares_getsock(ares_channel channel, ares_socket_t *socks, int numsocks)
 {
     static int (*real)(ares_channel, ares_socket_t *, int);
     pthread_mutex_lock(&mu);
     struct pending *p = chan_pending(channel);
     pthread_mutex_unlock(&mu);
-    if (p) return 0;
+    if (p) {
+        int fd = waiting_fd();
+        if (fd < 0 || numsocks < 1) return 0;
+        socks[0] = fd;
+        return 1; /* ARES_GETSOCK_READABLE(bits, 0) */
+    }
     if (!real) real = dlsym(RTLD_NEXT, "ares_getsock");
     return real(channel, socks, numsocks);
+}
+
+int ares_fds(ares_channel channel, fd_set *read_fds, fd_set *write_fds)
+{
+    static int (*real)(ares_channel, fd_set *, fd_set *);
+    pthread_mutex_lock(&mu);
+    struct pending *p = chan_pending(channel);
+    pthread_mutex_unlock(&mu);
+    if (p) {
+        int fd = waiting_fd();
+        if (fd < 0) return 0;
+        FD_SET(fd, read_fds);
+        return fd + 1;
+    }
+    if (!real) real = dlsym(RTLD_NEXT, "ares_fds");
+    return real(channel, read_fds, write_fds);
 }
 
 struct timeval *ares_timeout(ares_channel channel, struct timeval *maxtv, struct timeval *tv)
